@@ -489,6 +489,22 @@ func runC06(res *Result, rng *RNG, tier string, outDir string) {
 		case 3: // unknown variable
 			e = SExpr{{Kind: 0, Val: aVar("nope")}, {Kind: 0, Val: aInt(1)}, {Kind: 2, Bin: 4}}
 		}
+		// whatever two strings a (mis-paired) regex operator may meet, the model needs Go's answer
+		{
+			pool := []string{"hello"}
+			for _, o := range e {
+				if o.Kind == 0 && !o.Val.IsSet && o.Val.A.Kind == KStr {
+					pool = append(pool, o.Val.A.S)
+				}
+			}
+			if len(pool) <= 12 {
+				for _, p := range pool {
+					for _, sj := range pool {
+						addRx(p, sj)
+					}
+				}
+			}
+		}
 		got := evalGo(e, bind)
 		want := refEval(e, bind)
 		res.Count("mal "+exprString(e), true)
